@@ -11,6 +11,10 @@ def family(h):
 
 def run_k(ctx, out, harnesses, timeout, jobs=None, mem_gb=12):
     """runs harnesses; FAIL -> native playback -> Violation; returns list of result dicts for evidence"""
+    import os
+    if os.environ.get('VERIF_DEV_SKIP_K'):   # development aid only: never set by registered commands
+        out.inconclusive.append('K harnesses skipped (VERIF_DEV_SKIP_K)')
+        return []
     results = kani.run_many(ctx.tree, harnesses, timeout, jobs=jobs or min(8, ctx.jobs), mem_gb=mem_gb)
     summary = []
     for r in results:
